@@ -558,6 +558,9 @@ func runC13(ctx *core.Ctx) {
 	run("c13null", ctx.N(3, 40)*len(c13NullOperands)*2*len(c13SiteNames), func(i int, r *rand.Rand) {
 		c13NullCase(ctx, core.CaseRef{Stream: "c13null", Index: i}, r)
 	})
+	run("c13nullpair", ctx.N(1, 12)*len(c13NullOperands)*2*len(c13SiteNames), func(i int, r *rand.Rand) {
+		c13NullCaseP(ctx, core.CaseRef{Stream: "c13nullpair", Index: i}, r, true)
+	})
 	c13AggStream(ctx)
 }
 
